@@ -682,18 +682,25 @@ var skeletonRe = regexp.MustCompile(`[0-9a-fA-F]{6,}|\d+`)
 
 func skeleton(l string) string { return skeletonRe.ReplaceAllString(l, "#") }
 
-// symdiff returns the lines that occur a different number of times in a and b
+// symdiff returns the lines that occur in one of a, b and not in the other.  How OFTEN an identical
+// (normalised) line occurs is not compared: the number of connections the readiness probe opens, of
+// retries and of keep-alive closes varies from run to run, and a repeated identical line cannot show a secret.
 func symdiff(a, b []string) []string {
-	cnt := map[string]int{}
+	ina, inb := map[string]bool{}, map[string]bool{}
 	for _, l := range a {
-		cnt[l]++
+		ina[l] = true
 	}
 	for _, l := range b {
-		cnt[l]--
+		inb[l] = true
 	}
 	var out []string
-	for l, n := range cnt {
-		if n != 0 {
+	for l := range ina {
+		if !inb[l] {
+			out = append(out, l)
+		}
+	}
+	for l := range inb {
+		if !ina[l] {
 			out = append(out, l)
 		}
 	}
